@@ -16,6 +16,8 @@ func main() {
 	seed := flag.Int64("seed", 1, "random seed")
 	n := flag.Int("n", 10, "number of scenarios")
 	out := flag.String("out", "", "output directory")
+	shards := flag.Int("shards", 1, "number of parallel harness processes")
+	shard := flag.Int("shard", 0, "index of this process among the shards")
 	one := flag.Int64("one", 0, "run exactly the scenario with this scenario seed (replay)")
 	flag.Parse()
 	if *out == "" {
@@ -27,6 +29,9 @@ func main() {
 	case "seq":
 		for i := 0; i < *n; i++ {
 			s := *seed*1000003 + int64(i)
+			if *one == 0 && i%*shards != *shard {
+				continue
+			}
 			if *one != 0 {
 				s = *one
 				*n = 1
